@@ -24,7 +24,8 @@ ODD = ['\u0130', '\u01c5', '\xdf', '\xc9', '\u03a9', '\u0131']   # I-dot, Dz-car
 # every character the driver may be sent: ASCII, Latin-1, and the few others the generators use.
 # U+03A3 (capital sigma) is left out on purpose: its lower-casing depends on the context.
 ALPHABET = [chr(i) for i in range(256)] + WS + ODD + ['\u0307', '\u01c6', '\u03c9', '\u01c4',
-                                                       '\ufb01', '\u03bf', '\u03c2', '\u039f', '\u0663']   # fi ligature, omicron, final sigma, Omicron, Arabic-Indic 3
+                                                       '\ufb01', '\u03bf', '\u03c2', '\u039f', '\u0663',   # fi ligature, omicron, final sigma, Omicron, Arabic-Indic 3
+                                                       '\ue000', '\ufffe']   # a private-use character, a noncharacter (neither has a Unicode name)
 
 _key_re = re.compile(r'^[-:\w\s\.\+]$', re.UNICODE)
 _ws_re = re.compile(r'^\s$', re.UNICODE)
@@ -101,23 +102,32 @@ class UserLicense:
         self.key, self.is_exception = key, is_exception
 
 
-def make_sym(key, exc, rng=None):
+class UserLicenseR(UserLicense):
+    """... that also brings its own render(): every license is displayed by the same words (the library delegates
+    render() of the wrapper to it; str() of the wrapper stays the key)"""
+
+    def render(self, template='{symbol.key}', *args, **kwargs):
+        return 'a license'
+
+
+def make_sym(key, exc, rng=None, own_render=False):
     """a plain symbol, or (with `rng`, one time in three) a wrapper around a user object with the same key and flag"""
     if rng is not None and rng.random() < 0.33:
-        return le.LicenseSymbolLike(UserLicense(key, exc))
+        return le.LicenseSymbolLike((UserLicenseR if own_render else UserLicense)(key, exc))
     return le.LicenseSymbol(key, is_exception=exc)
 
 
-def build_tree(t, AND=None, OR=None, rng=None):
-    """canonical tree -> real expression objects; with `rng` some symbols are wrappers around user objects"""
+def build_tree(t, AND=None, OR=None, rng=None, own_render=False):
+    """canonical tree -> real expression objects; with `rng` some symbols are wrappers around user objects
+    (`own_render`: user objects with a render() method of their own)"""
     AND = AND or le.AND
     OR = OR or le.OR
     tag = t[0]
     if tag == 'sym':
-        return make_sym(t[1], t[2], rng)
+        return make_sym(t[1], t[2], rng, own_render)
     if tag == 'with':
-        return le.LicenseWithExceptionSymbol(make_sym(t[1], t[2], rng), make_sym(t[3], t[4], rng))
-    args = [build_tree(x, AND, OR, rng) for x in t[1:]]
+        return le.LicenseWithExceptionSymbol(make_sym(t[1], t[2], rng, own_render), make_sym(t[3], t[4], rng, own_render))
+    args = [build_tree(x, AND, OR, rng, own_render) for x in t[1:]]
     return (AND if tag == 'and' else OR)(*args)
 
 
